@@ -231,6 +231,23 @@ func runC11(w *mon.W) {
 			s = randCase(r, string(b), []float64{0, 0, 0.5}[r.Intn(3)])
 			w.Add("sparse_ambiguity_strings", 1)
 		}
+		if i%25 == 24 {
+			// large expansions: 7..9 three-fold codes (and at most one two-fold code) give 2,187..39,366 variants
+			var b []byte
+			for k := 7 + r.Intn(3); k > 0; k-- {
+				b = append(b, "BDHV"[r.Intn(4)])
+			}
+			if r.Intn(2) == 0 {
+				b = append(b, "RYSWKM"[r.Intn(6)])
+			}
+			for k := r.Intn(5); k > 0; k-- {
+				b = append(b, "ACGT"[r.Intn(4)])
+			}
+			r.Shuffle(len(b), func(x, y int) { b[x], b[y] = b[y], b[x] })
+			s = randCase(r, string(b), []float64{0, 0, 0.5}[r.Intn(3)])
+			n = len(s)
+			w.Add("large_expansions", 1)
+		}
 		hasU := false
 		if r.Intn(10) == 0 && n > 0 {
 			b := []byte(s)
@@ -244,7 +261,7 @@ func runC11(w *mon.W) {
 			s = s + oracle.MustRevComp(s)
 			w.Add("constructed_palindromes", 1)
 		}
-		expand := oracle.ExpansionSize(s, 4096) <= 4096
+		expand := oracle.ExpansionSize(s, 4096) <= 4096 || (i%25 == 24 && oracle.ExpansionSize(s, 40000) <= 40000)
 		w.Begin(id, s)
 		c11Judge(w, id, s, n <= 60, expand, hasU)
 		w.End()
